@@ -300,9 +300,7 @@ Proof.
   assert (Hpsr : sr_ok (plens x1) pi (match path_location a (session_ x1) pi with Some (pos, _) => Some (pi, pos) | None => None end)).
   { destruct (path_location a (session_ x1) pi) as [[pos n]|] eqn:Epl; [eapply path_location_sr; eauto|left; reflexivity]. }
   destruct (negb match run_status (session_ x1) c with Some RFailed => true | _ => false end).
-  - destruct (match get_run (session_ x1) pi with
-              | Some r0 => match get_flow a (r_flow r0) with Some _ => false | None => true end
-              | None => true end).
+  - destruct (run_flow_unusable a (session_ x1) pi).
     + intros <-. simpl. split; [apply refs_ok_fail_run; auto; left; reflexivity|].
       unfold lstep_ok. simpl. rewrite plens_fail_run. exact Hpsr.
     + pose proof (find_resume_exit_refs a x1 pi false [] H1) as K.
